@@ -12,6 +12,7 @@ from harness.framework import Suite
 
 PID = "C02"
 TRANSLATE = True
+READY = False
 LEAN_MODS = ["SwcVerif.Props.C02"]
 THEOREMS = []
 TRUSTED = ["hand-written recogniser of the SWC line language (Model/SwcText.lean), tested equal to CPython's `re` on generated lines, pinned to the regex strings extracted from io.py (Gen/Consts.lean)"]
@@ -246,7 +247,89 @@ class Read(Suite):
         return case["class"] + ("/raised" if "exc" in res else "")
 
 
-SUITES = [Read()]
+ALPHABET = " \t0123456789.+-eE#,x\n\r"
+
+
+def mutate(rng, line):
+    if not line:
+        return rng.choice(ALPHABET)
+    k = rng.randrange(len(line))
+    op = rng.choice(["del", "ins", "rep", "dup"])
+    c = rng.choice(ALPHABET)
+    if op == "del":
+        return line[:k] + line[k + 1:]
+    if op == "ins":
+        return line[:k] + c + line[k:]
+    if op == "dup":
+        return line[:k] + line[k] + line[k:]
+    return line[:k] + c + line[k + 1:]
+
+
+class Recogniser(Suite):
+    """model of parse_swc (recogniser + loop) against the real parse_swc, text by text"""
+    name = "c02.recogniser"
+
+    def cases(self, rng, tier, widen):
+        out = []
+        big = tier == "thorough" or widen
+        n1 = 400 if big else 60
+        for _ in range(n1):
+            nx = rng.choice([0, 0, 0, 1, 2])
+            text, _, _ = make_text(rng, [rng.randint(0, 99)], [rng.choice([-1, rng.randint(0, 99)])], n_extra=nx + rng.choice([0, 0, 1]) - rng.choice([0, 0, 1]) if nx else rng.choice([0, 0, 1]),
+                                   with_tail=rng.random() < 0.4)
+            line = text
+            out.append({"class": "valid-ish", "text": line, "nx": nx})
+            m = line
+            for _ in range(rng.randint(1, 3)):
+                m = mutate(rng, m)
+            out.append({"class": "mutated", "text": m, "nx": nx})
+        for _ in range(n1):
+            out.append({"class": "malformed", "text": malformed_line(rng, rng.choice(MALFORM)) + rng.choice(["\n", "", "\r\n"]), "nx": rng.choice([0, 0, 1])})
+            out.append({"class": "soup", "text": "".join(rng.choice(ALPHABET) for _ in range(rng.randint(0, 24))), "nx": rng.choice([0, 0, 1])})
+        for s in ["", "\n", " \n", "#", "#\n", " # x\n", "# id type x y z r pid\n", "#   id type x y z r pid extra\n", "#id type x y z r pid\n",
+                  "1 1 0 0 0 1 -1", "1 1 0 0 0 1 -1.5\n", "1 1 0 0 0 1 6.5 \n", "1 1 0 0 0 1 -1,2\n", "1 1 0 0 0 1 --1\n", "1 1 1e 0 0 1 -1\n",
+                  "1 1 1.e5 .5e-2 +.5 1. -1\n", "1 1 . 0 0 1 -1\n", "01 007 0 0 0 1 -01\n", "1 1 0 0 0 1 -1 # c\n", "1 1 0 0 0 1 -1\t\x0b\x0c\n",
+                  "1 1 0 0 0 1 -1\x1c\n", "1\x1f1 0 0 0 1 -1\n", "+1 1 0 0 0 1 -1\n", "1 1 0 0 0 1 +1\n", "1 1 0 0 0 1 1 2 3\n", "1 1 0 0 0 1e2 5e1\n"]:
+            for nx in (0, 1):
+                out.append({"class": "edge", "text": s, "nx": nx})
+        k = 0
+        for _ in range(40 if big else 10):
+            n = rng.choice([2, 3, 6, 15])
+            pids = gen.parents_sorted(rng, n, gen.pick_shape(rng, k)); k += 1
+            nx = rng.choice([0, 0, 1])
+            text, _, _ = make_text(rng, list(range(1, len(pids) + 1)), [-1 if p < 0 else p + 1 for p in pids], n_extra=nx, with_tail=rng.random() < 0.3)
+            out.append({"class": "file", "text": text, "nx": nx})
+            ls = text.split("\n")
+            ls.insert(rng.randrange(len(ls) + 1), malformed_line(rng, rng.choice(MALFORM)))
+            out.append({"class": "file-bad", "text": "\n".join(ls), "nx": nx})
+        return out
+
+    def run(self, case):
+        from harness import swctext
+
+        return swctext.run_parse_swc(case["text"], case["nx"])
+
+    def lines(self, case, res):
+        from harness import swctext
+
+        if "exc" in res:
+            return []
+        return [(f"swcread nx={case['nx']} cp={swctext.cps(case['text'])}", swctext.expect_read(res))]
+
+    def oracle(self, case, res):
+        if "exc" in res:
+            return [("parse-internal-error", f"parse_swc raised {res['exc']} (not the documented ValueError) on {case['text']!r}: {res.get('msg')}")]
+        return []
+
+    def nontrivial(self, case, res):
+        return len(case["text"]) > 4
+
+    def klass(self, case, res):
+        k = "error" if "error" in res else ("exc" if "exc" in res else f"rows{min(len(res['cols']['id']), 2)}c{min(len(res['comments']), 1)}w{int(res['warned'])}")
+        return case["class"] + "/" + k
+
+
+SUITES = [Read(), Recogniser()]
 TECHNIQUE = "Lean 4 theorems about a line recogniser + fold model of parse_swc (ok ⇔ no invalid line; one row per data line in order; never partial) pinned to the regexes extracted from the source + differential correspondence against CPython re / read_swc + grammar-directed and malformed-stream oracle"
 LEVEL_TEXT = ("Kernel-checked for every list of lines: the model of parse_swc returns ok exactly when no line is invalid, and then exactly one row per data "
               "line in file order with the tokens' values and the comments in order; an invalid line at any position makes the whole read an error. "
